@@ -358,7 +358,9 @@ func isString(t types.Type) bool {
 	return ok && b.Kind() == types.String
 }
 func isErrorType(t types.Type) bool {
-	return types.Identical(t, types.Universe.Lookup("error").Type())
+	// go/ssa uses opaque internal types for some values (iterators); only named types can be `error`
+	n, ok := t.(*types.Named)
+	return ok && n.Obj().Pkg() == nil && n.Obj().Name() == "error"
 }
 func isCodeType(t types.Type) bool { return typeID(t) == pkgCodes+".Code" }
 
